@@ -130,7 +130,7 @@ fn c04_grids(r: &mut Runner, thorough: bool) {
                     cnt += 1;
                     hist[o as usize] += 1;
                     if let Some(v) = v {
-                        if vs.len() < 3 {
+                        if !vs.iter().any(|x: &(Violation, Value)| x.0.key == v.0.key) {
                             vs.push(v);
                         }
                     }
@@ -168,7 +168,7 @@ fn c04_grids(r: &mut Runner, thorough: bool) {
                         repr += 1;
                     }
                     if let Some(v) = v {
-                        if vs.len() < 3 {
+                        if !vs.iter().any(|x: &(Violation, Value)| x.0.key == v.0.key) {
                             vs.push(v);
                         }
                     }
